@@ -1,6 +1,7 @@
 import GB.C20.Model
 import GB.C20.Spec
 import GB.C20.ProofsTrie
+import GB.C20.ProofsTrieComplete
 import GB.C20.ProofsGwMain
 import GB.C20.ProofsStMain
 import GB.C20.ProofsVerb
@@ -399,6 +400,133 @@ theorem C20_trie_incomplete_fails :
     -- without the competing literal the same template IS found
     (add [] [47, 42, 47, 99]).find [71, 69, 84] [47, 97, 47, 99] = add [] [47, 42, 47, 99] := by
   refine ⟨by decide, by decide, ⟨[[97], [99]], by decide, by decide⟩, by decide⟩
+
+/-! ### trie completeness inside the unshadowed class (round 6)
+
+  `Trie.unshadowed t` (ProofsTrieComplete.lean; a decidable condition on the SET of added templates, not on trie
+  nodes): any two templates of the same method, at the first key where their key paths differ, differ in two
+  literals (so no trie node has a `*` or `**` child next to any other child), and no template passes through a
+  literal `"l:verb"` where a sibling template is `…/l` with verb `verb`. -/
+
+/-- **Trie completeness under the side condition.** For every template set with `unshadowed`, every method and every
+    path: if an added template of that method matches the path (declarative `Matches`, the semantics of
+    `C20_trie_sound`), with at least as many path components as keys (i.e. a trailing `**` takes at least one
+    component: `C20_trie_multi_zero_fails` shows the trie never does otherwise), then `Find` returns something, and
+    (with soundness) everything it may return is an added template of that method matching the path. -/
+theorem C20_trie_complete_unshadowed (t : Trie) (hv : ∀ e ∈ t, cSlash ∉ e.verb) (hu : t.unshadowed = true)
+    (m p : Bytes) (e : Entry) (he : e ∈ t) (hm : e.method = m)
+    (hM : Matches (e.keys.map Key.mkey) e.verb (splitOnByte cSlash (trimLeadingSlash p)))
+    (hl : e.keys.length ≤ (splitOnByte cSlash (trimLeadingSlash p)).length) :
+    t.find m p ≠ [] ∧
+    ∀ e' ∈ t.find m p, e' ∈ t ∧ e'.method = m ∧
+      Matches (e'.keys.map Key.mkey) e'.verb (splitOnByte cSlash (trimLeadingSlash p)) :=
+  ⟨find_complete t hu m p e he hm (Matches1.of_matches hM hl), fun e' h => find_sound t hv m p e' h⟩
+
+/-- `C20_trie_complete_unshadowed` for a trie filled with templates the strict parser returned (no verb hypothesis
+    left): `Find` = some added template of the method that matches the path. -/
+theorem C20_trie_complete_unshadowed_parsed (t : Trie)
+    (hp : ∀ e ∈ t, ∃ s T, stParse s = .ok T ∧ e.verb = T.verb) (hu : t.unshadowed = true)
+    (m p : Bytes) (e : Entry) (he : e ∈ t) (hm : e.method = m)
+    (hM : Matches (e.keys.map Key.mkey) e.verb (splitOnByte cSlash (trimLeadingSlash p)))
+    (hl : e.keys.length ≤ (splitOnByte cSlash (trimLeadingSlash p)).length) :
+    t.find m p ≠ [] ∧
+    ∀ e' ∈ t.find m p, e' ∈ t ∧ e'.method = m ∧
+      Matches (e'.keys.map Key.mkey) e'.verb (splitOnByte cSlash (trimLeadingSlash p)) :=
+  ⟨find_complete t hu m p e he hm (Matches1.of_matches hM hl),
+   fun e' h => C20_trie_sound_parsed t hp m p e' h⟩
+
+/-- the same with the matching notion in which `**` takes at least one component (`Matches1`), which implies
+    `Matches` -/
+theorem C20_trie_complete_unshadowed_matches1 (t : Trie) (hu : t.unshadowed = true)
+    (m p : Bytes) (e : Entry) (he : e ∈ t) (hm : e.method = m)
+    (hM : Matches1 e.keys e.verb (splitOnByte cSlash (trimLeadingSlash p))) :
+    t.find m p ≠ [] ∧ Matches (e.keys.map Key.mkey) e.verb (splitOnByte cSlash (trimLeadingSlash p)) :=
+  ⟨find_complete t hu m p e he hm hM, hM.matches⟩
+
+/-- templates without `**` need no length hypothesis: key matching is one to one -/
+theorem C20_trie_complete_unshadowed_nomulti (t : Trie) (hu : t.unshadowed = true)
+    (m p : Bytes) (e : Entry) (he : e ∈ t) (hm : e.method = m) (hn : Key.multi ∉ e.keys)
+    (hM : Matches (e.keys.map Key.mkey) e.verb (splitOnByte cSlash (trimLeadingSlash p))) :
+    t.find m p ≠ [] := by
+  refine find_complete t hu m p e he hm ?_
+  obtain ⟨cs, h1, h2⟩ := hM
+  refine ⟨cs, ?_, h2⟩
+  clear h2 he hm
+  revert cs
+  generalize e.keys = ks at hn
+  induction ks with
+  | nil => intro cs h; simpa [matchKeys1, matchKeys] using h
+  | cons k ks ih =>
+    intro cs h
+    have hn' : Key.multi ∉ ks := fun h => hn (List.mem_cons_of_mem _ h)
+    cases k with
+    | lit l =>
+      cases cs with
+      | nil => simp [Key.mkey, matchKeys] at h
+      | cons c cs =>
+        simp [Key.mkey, matchKeys] at h
+        simp [matchKeys1, h.1, ih hn' cs h.2]
+    | wild =>
+      cases cs with
+      | nil => simp [Key.mkey, matchKeys] at h
+      | cons c cs =>
+        simp [Key.mkey, matchKeys] at h
+        simp [matchKeys1, ih hn' cs h]
+    | multi => exact absurd (List.mem_cons_self) hn
+
+/-- a kernel-checked template set inside the class, through the real models (strict parser ▸ `Add` ▸ `Find`):
+    `GET /a/b`, `GET /a/c:v`, `GET /b/*/d`, `GET /c/**` is unshadowed, and each kind of path finds its template. -/
+theorem C20_trie_unshadowed_example :
+    let add := fun (t : Trie) (s : Bytes) => match stParse s with
+      | .ok T => t.add [71, 69, 84] T
+      | .error _ => t
+    let t := add (add (add (add [] [47, 97, 47, 98]) [47, 97, 47, 99, 58, 118]) [47, 98, 47, 42, 47, 100])
+      [47, 99, 47, 42, 42]
+    t.map (fun e => (e.keys, e.verb)) =
+      [([.lit [97], .lit [98]], []), ([.lit [97], .lit [99]], [118]), ([.lit [98], .wild, .lit [100]], []),
+       ([.lit [99], .multi], [])] ∧
+    t.unshadowed = true ∧
+    (t.find [71, 69, 84] [47, 97, 47, 98]).map (·.tmpl) = [[47, 97, 47, 98]] ∧
+    (t.find [71, 69, 84] [47, 97, 47, 99, 58, 118]).map (·.tmpl) = [[47, 97, 47, 99, 58, 118]] ∧
+    (t.find [71, 69, 84] [47, 98, 47, 120, 47, 100]).map (·.tmpl) = [[47, 98, 47, 42, 47, 100]] ∧
+    (t.find [71, 69, 84] [47, 99, 47, 120, 47, 121]).map (·.tmpl) = [[47, 99, 47, 42, 42]] ∧
+    t.find [71, 69, 84] [47, 97, 47, 99] = [] := by
+  refine ⟨by decide, by decide, by decide, by decide, by decide, by decide, by decide⟩
+
+/-- the witnesses of incompleteness are outside the class: `/a/b` + `/*/c` (`C20_trie_incomplete_fails`: a literal
+    child next to a `*` child), `/*/b` + `/**` (a `*` child next to a `**` child), and `/a:v/b` + `/a:v` (the literal
+    child `"a:v"` shadows the verb split of `/a` with verb `v`) all have `unshadowed = false`; for the last two
+    `Find` indeed misses a matching template. -/
+theorem C20_trie_incomplete_witness_shadowed :
+    let add := fun (t : Trie) (s : Bytes) => match stParse s with
+      | .ok T => t.add [71, 69, 84] T
+      | .error _ => t
+    (add (add [] [47, 97, 47, 98]) [47, 42, 47, 99]).unshadowed = false ∧
+    (add (add [] [47, 42, 47, 98]) [47, 42, 42]).unshadowed = false ∧
+    (add (add [] [47, 42, 47, 98]) [47, 42, 42]).find [71, 69, 84] [47, 120, 47, 99] = [] ∧
+    Matches ([Key.multi].map Key.mkey) [] (splitOnByte cSlash (trimLeadingSlash [47, 120, 47, 99])) ∧
+    (add (add [] [47, 97, 58, 118, 47, 98]) [47, 97, 58, 118]).map (fun e => (e.keys, e.verb)) =
+      [([.lit [97, 58, 118], .lit [98]], []), ([.lit [97]], [118])] ∧
+    (add (add [] [47, 97, 58, 118, 47, 98]) [47, 97, 58, 118]).unshadowed = false ∧
+    (add (add [] [47, 97, 58, 118, 47, 98]) [47, 97, 58, 118]).find [71, 69, 84] [47, 97, 58, 118] = [] ∧
+    Matches ([Key.lit [97]].map Key.mkey) [118] (splitOnByte cSlash (trimLeadingSlash [47, 97, 58, 118])) := by
+  refine ⟨by decide, by decide, by decide, ⟨[[120], [99]], by decide, by decide⟩, by decide, by decide, by decide,
+    ⟨[[97]], by decide, by decide⟩⟩
+
+/-- why `C20_trie_complete_unshadowed` asks for as many components as keys: the declarative `matchKeys` lets a
+    trailing `**` match zero components, `dfs` reaches a `**` child only with a component in hand. With only
+    `GET /a/**` added (an unshadowed set), `Find GET /a` returns nothing, `Find GET /a/` (one empty component) finds it. -/
+theorem C20_trie_multi_zero_fails :
+    let add := fun (t : Trie) (s : Bytes) => match stParse s with
+      | .ok T => t.add [71, 69, 84] T
+      | .error _ => t
+    let t := add [] [47, 97, 47, 42, 42]
+    t.map (fun e => (e.keys, e.verb)) = [([.lit [97], .multi], [])] ∧
+    t.unshadowed = true ∧
+    t.find [71, 69, 84] [47, 97] = [] ∧
+    Matches ([Key.lit [97], Key.multi].map Key.mkey) [] (splitOnByte cSlash (trimLeadingSlash [47, 97])) ∧
+    t.find [71, 69, 84] [47, 97, 47] = t := by
+  refine ⟨by decide, by decide, by decide, ⟨[[97]], by decide, by decide⟩, by decide⟩
 
 /-! ### gwbased: legacy `accept` clause (kept in the code for the token-level unit test, disabled by `Parse`) -/
 
